@@ -447,7 +447,7 @@ pub fn run(tier: Tier) -> i32 {
     rep.absorb("lenient", st);
     // the oracle itself is bound to a second implementation
     match crate::xmlref::expat_conformance(tier.pick(3, 5)) {
-        Ok((n, acc)) => rep.set("oracle_conformance", json!({"against": "expat (python3 stdlib)", "documents": n, "accepted_by_both": acc, "rule": "every string of <= k tokens over a 31-token XML alphabet: same well-formedness verdict and same event stream"})),
+        Ok((n, acc)) => rep.set("oracle_conformance", json!({"against": "expat (python3 stdlib)", "documents": n, "accepted_by_both": acc, "rule": "every string of <= k tokens over a 33-token XML alphabet: same well-formedness verdict and same event stream"})),
         Err(e) => rep.machinery_errors.push(format!("xmlref/expat conformance: {e}")),
     }
     rep.assume("inputs are well-formed XML (checked by the same reader); quick-xml's leniency towards ill-formed input is outside this space");
